@@ -88,7 +88,7 @@ CONVS = {
     "addHeader": lambda k, t: (k, t) == ("arc", "slice"),
     "shareable": lambda k, t: k == "uniq" and t != "hsMu",
     "assumeInit": lambda k, t: (k in ("arc", "uniq") and t in ("mu", "muSlice")) or (k, t) == ("uniq", "hsMu"),
-    "toDyn": lambda k, t: (k, t) == ("arc", "sized"),
+    "toDyn": lambda k, t: (k, t) in (("arc", "sized"), ("uniq", "sized")),
 }
 CB_APIS = {
     "rawOffset": lambda k, t: (k, t) == ("arc", "sized"),
@@ -207,7 +207,7 @@ class Gen:
                     else:
                         thins = [i for i, s in slots.items() if s["kind"] == "thin" and i != src]
                         k = r.choice(thins) if thins and r.random() < 0.9 else r.randrange(self.nslots)
-                        acts.append("replace:%d" % k)
+                        acts.append(("replace:%d" if r.random() < 0.6 else "swap:%d") % k)
         return ",".join(acts) if acts else "-"
 
     def next_op(self, slots):
@@ -389,6 +389,7 @@ MAKERS = {
     "unionB.sizedB": ["create 0 newB 1:1", "conv 0 unionSecond"],
     "uniq.sized": ["create 0 uniqueNew 1:1"],
     "uniq.slice": ["iter 0 uniqueFromIter - lens=- hints=- items=1:1,2:2 panic=-"],
+    "uniq.dyn": ["create 0 uniqueNew 1:1", "conv 0 toDyn"],
     "uniq.hs": ["create 0 hsUninit 9:9 2", "writeSlot 0 0 1:1", "writeSlot 0 1 2:2", "conv 0 assumeInit"],
     "arc.mu": ["create 0 newUninit"],
     "arc.mu.w": ["create 0 newUninit", "writeSlot 0 0 1:1"],
@@ -432,6 +433,7 @@ TOUR_OPS = [
     "cb 0 thinWithArc cnt,read,clone:5,cnt", "cb 0 thinWithArc clone:5,panic", "cb 0 thinWithArcMut cnt,getMut:66,clone:5,read,cnt",
     "cb 0 thinWithArcMut clone:5,panic", "cb 0 thinWithArcMut replace:7,cnt,read", "cb 0 thinWithArcMut replace:7,panic",
     "cb 0 thinWithArcMut getMut:66,replace:7,getMut:67,clone:5",
+    "cb 0 thinWithArcMut swap:7,cnt,read", "cb 0 thinWithArcMut swap:7,panic", "cb 0 thinWithArcMut getMut:66,swap:7,getMut:67,clone:5",
 ]
 REPLACEMENT = ["create 7 hwlFromVec 8:8 1 1 30:3", "intoThin 7"]
 
@@ -447,8 +449,8 @@ def tour():
                 configs.append(["clone 1 0"] + [c.replace("K", "1") for c in cv] + ["clone 2 0"])
         for cfg in configs:
             for op in TOUR_OPS:
-                pre = list(REPLACEMENT) if "replace:7" in op else []
-                if "replace:7" in op and len(cfg) > 1:
+                pre = list(REPLACEMENT) if ("replace:7" in op or "swap:7" in op) else []
+                if ("replace:7" in op or "swap:7" in op) and len(cfg) > 1:
                     pre = pre + ["clone 8 7"]
                 hs.append(["reset"] + mk + cfg + pre + [op, "isUnique 0", "drop 1", "isUnique 0", "dropAll"])
     # comparison / hashing / formatting through every comparable handle type: equal values in another
@@ -481,6 +483,11 @@ def tour():
             for cfg in ([], ["clone 1 0"], ["clone 1 0", "clone 11 10"]):
                 ops = ["cmp 0 10", "cmp 10 0", "cmp 0 0"] + (["cmp 0 1", "cmp 1 10"] if cfg else [])
                 hs.append(["reset"] + mk + var + cfg + ops + ["drop 0", "cmp 10 10"] + (["cmp 1 10"] if cfg else []) + ["dropAll"])
+    # with_arc_mut callbacks that swap / replace the lent Arc, then every gate reachable through both ThinArcs
+    for act in ("swap:7", "replace:7", "swap:7,panic", "replace:7,panic", "getMut:66,swap:7,getMut:67"):
+        for cfg in ([], ["clone 1 0"], ["clone 8 7"], ["clone 1 0", "clone 8 7"]):
+            hs.append(["reset"] + MAKERS["thin.hwl"] + REPLACEMENT + cfg + ["cb 0 thinWithArcMut " + act, "cb 0 thinWithArcMut getMut:70,cnt",
+                       "cb 7 thinWithArcMut getMut:71,cnt", "conv 0 fromThin", "isUnique 0", "getMut 0 72", "tryUnique 0", "dropAll"])
     # a panic in user code followed by every uniqueness gate: the verdict must still be "sole owner"
     PANICKY = ["makeMut 0 77 1", "makeUnique 0 77 1", "cb 0 rawOffset clone:5,panic", "cb 0 offsetWithArc clone:5,panic",
                "cb 0 borrowWithArc panic", "cb 0 thinWithArcMut getMut:66,panic", "cb 0 thinWithArc clone:5,panic", "unwrapOrClone 1 1"]
@@ -692,7 +699,7 @@ def monitor_history(ops, obs):
             if f[0] == "writeSlot" and ps["kind"] == "arc":
                 if uniq != (st == "ok"):
                     fails.append((i, ["C03", "C15"], "deprecated write on Arc with %d owner(s): %s" % (n_before, st)))
-            if f[0] == "cb" and "replace:" not in f[3]:
+            if f[0] == "cb" and "replace:" not in f[3] and "swap:" not in f[3]:
                 # counts read INSIDE the borrow callback: owners before the call plus the clones the
                 # callback itself has made so far (scripts that replace the Arc are left to the diff)
                 made = 0
@@ -704,6 +711,35 @@ def monitor_history(ops, obs):
                         if "|" in v or (v.isdigit() and int(v) != n_before + made):
                             fails.append((i, ["C04"] + (["C11"] if f[2] == "rawOffset" else []), "count read inside the %s callback is %s while %d owning handle(s) exist (the borrow must not change the count)" % (f[2], v, n_before + made)))
                             break
+        if f[0] == "cb" and len(f) > 3 and f[2] == "thinWithArcMut" and src is not None and src in pre and st != "bad-op":
+            # C03 through ThinArc::with_arc_mut: `Arc::get_mut` on the lent Arc succeeds iff nobody else owns the allocation
+            # the transient refers to at that moment (the callback may have cloned it, replaced it or swapped it)
+            cur = pre[src]["blk"]
+            own = owners(pre, cur)
+            tmp = dict(pre)
+            toks = [x for x in o["out"].split(";") if x]
+            for a_i, act in enumerate(f[3].split(",")):
+                if a_i >= len(toks):
+                    break
+                tk = toks[a_i]
+                if tk == "cloned":
+                    own += 1
+                elif tk in ("replaced", "swapped"):
+                    kk = int(act.split(":")[1])
+                    if kk in tmp:
+                        nb = tmp[kk]["blk"]
+                        if tk == "replaced":
+                            del tmp[kk]
+                        else:
+                            tmp[kk] = dict(tmp[kk], blk=cur)
+                        cur = nb
+                        own = sum(1 for z in tmp.values() if z["blk"] == cur and z["kind"] not in ("borrow",)) + (1 if tk == "replaced" else 0)
+                        if tk == "swapped":
+                            own = owners(pre, nb)
+                elif tk.startswith("mut="):
+                    if (tk == "mut=some") != (own == 1):
+                        fails.append((i, ["C03"], "get_mut inside the with_arc_mut callback answered %s while %d owning handle(s) refer to b%d" % (tk[4:], own, cur)))
+                        break
         # C06: a constructor that succeeds delivers exactly the given header and elements, in order,
         # destroys none of them, and leaves no source storage behind
         if f[0] in ("create", "iter") and st == "ok" and len(f) > 2 and f[1].isdigit() and int(f[1]) in post and int(f[1]) not in pre:
@@ -769,7 +805,22 @@ def monitor_history(ops, obs):
                         break
                 if owners(post, a["blk"]) == 0 and not any(e.startswith("dealloc:b%d:" % a["blk"]) for e in o["ev"]):
                     fails.append((i, ["C10"], "into_thin refused the last handle with a panic but the allocation was not released"))
-        if f[0] == "cb" and len(f) > 3 and f[2] == "thinWithArcMut" and "replaced;" in o["out"] and src in pre and src in post:
+        if f[0] == "cb" and len(f) > 3 and f[2] == "thinWithArcMut" and "swapped;" in o["out"] and "replaced;" not in o["out"] and src in pre and src in post:
+            acts = f[3].split(",")
+            done = o["out"].split(";")
+            cur = pre[src]["blk"]
+            where = {}
+            for a_i, act in enumerate(acts):
+                if a_i < len(done) - 1 and act.startswith("swap:") and done[a_i] == "swapped":
+                    kk = int(act.split(":")[1])
+                    if kk in pre:
+                        nb = where.get(kk, pre[kk]["blk"])
+                        where[kk] = cur
+                        cur = nb
+            if post[src]["blk"] != cur or any(kk in post and post[kk]["blk"] != b for kk, b in where.items()):
+                fails.append((i, ["C10", "C07", "C03"], "with_arc_mut: the callback swapped the Arc but afterwards the ThinArcs point at %s (expected s%d -> b%d, %s)" % (
+                    {k: post[k]["blk"] for k in [src] + list(where) if k in post}, src, cur, {k: "b%d" % b for k, b in where.items()})))
+        if f[0] == "cb" and len(f) > 3 and f[2] == "thinWithArcMut" and "replaced;" in o["out"] and "swapped;" not in o["out"] and src in pre and src in post:
             ks = [int(x.split(":")[1]) for x in f[3].split(",") if x.startswith("replace:")]
             done = o["out"].split(";")
             k_used = None
